@@ -44,6 +44,14 @@ pub enum Op {
         #[serde(default)]
         interrupted: bool,
     },
+    /// a flush during which the (k+1)-th device call fails once; if the library reports the error the caller flushes
+    /// again - a flush that then returns success has to have done everything the first one was asked for
+    FlushRetry {
+        h: u8,
+        k: u16,
+        #[serde(default)]
+        interrupted: bool,
+    },
     /// transient storage fault: the (k+1)-th device call from now fails once with an I/O error; the model-based and
     /// raw-image judgements are suspended for the next `hold` operations (the faulted call may have been cut short at
     /// any point) and resume after them
@@ -659,6 +667,7 @@ impl<'a> Run<'a> {
             Op::Seek { h, whence, off } => self.op_seek(*h, *whence, *off),
             Op::Truncate { h } => self.op_truncate(*h),
             Op::Flush { h } => self.op_flush(*h),
+            Op::FlushRetry { h, k, interrupted } => self.op_flush_retry(*h, *k, *interrupted),
             Op::SetTimes { h, which, ms } => self.op_set_times(*h, *which, *ms),
             Op::CloseFile { h } => {
                 let k = *h as usize % NSLOTS;
@@ -1633,6 +1642,58 @@ impl<'a> Run<'a> {
         Ok(true)
     }
 
+    fn op_flush_retry(&mut self, h: u8, fault_k: u16, interrupted: bool) -> VResult<bool> {
+        let k = h as usize % NSLOTS;
+        if self.files[k].is_none() {
+            return Ok(false);
+        }
+        self.dev.with(|d| {
+            d.fail_at = Some(d.calls + 1 + fault_k as u64);
+            d.fail_tag = 0xFA17;
+            d.fired = None;
+            d.fail_kind = None;
+            d.fail_interrupted = interrupted;
+        });
+        let first = self.call("flush with a transient fault", |s| session::file_flush(s.files[k].as_mut().unwrap()))?;
+        let fired = self.dev.with(|d| {
+            let f = d.fired.is_some();
+            d.fail_at = None;
+            d.fired = None;
+            d.fail_interrupted = false;
+            f
+        });
+        match first {
+            Err(ref e) if fired && ek(e) == EK::Io => {
+                // reported: the caller flushes again, now on a storage that works
+                self.trace.hit("flush_failed_with_injected_fault_then_retried");
+                self.flush_slot(k)?;
+            }
+            Err(e) => {
+                self.lib_err = true;
+                if self.cfg.wants(Aspect::File) {
+                    return Err(self.viol(Aspect::File, format!("flush failed with {:?} (injected fault fired: {})", ek(&e), fired)));
+                }
+            }
+            Ok(()) => {
+                // the fault was not reached, was retried inside the library (interrupted) - or was swallowed: either way
+                // the flush claims success and is judged as one
+                if fired {
+                    self.trace.hit("flush_survived_injected_fault");
+                }
+                if let Some(f) = self.files[k].as_mut() {
+                    f.dirty = false;
+                }
+                if self.crash {
+                    if let Some(n) = self.files[k].as_ref().map(|f| f.node) {
+                        self.record_flush_event(n);
+                    }
+                }
+            }
+        }
+        self.trace.hit("flush");
+        Ok(true)
+    }
+
     fn op_set_times(&mut self, h: u8, which: u8, ms: u64) -> VResult<bool> {
         let k = h as usize % NSLOTS;
         let Some(mf) = self.files[k].clone() else { return Ok(false) };
@@ -2004,6 +2065,11 @@ impl<'a> Run<'a> {
                     }
                 }
                 self.model.sync_aliases(&dec);
+                if self.cfg.wants(Aspect::Tree) {
+                    if let Some(m) = self.model.alias_outside_the_tree() {
+                        return Err(self.viol(Aspect::Tree, format!("after {:?}: {}", op, m)));
+                    }
+                }
                 if self.cfg.wants(Aspect::Tree) || self.cfg.wants(Aspect::Times) {
                     let rt = tree::refdec_tree(&dec);
                     let mt = self.model.tnodes(0, true);
@@ -2276,7 +2342,7 @@ impl<'a> Run<'a> {
         match op {
             Op::CreateFile { via, path, .. } | Op::CreateDir { via, path, .. } | Op::OpenFile { via, path, .. } | Op::OpenDir { via, path, .. } | Op::Remove { via, path } => (vec![abs(*via, path)], all_handles),
             Op::Rename { via, src, dvia, dst } => (vec![abs(*via, src), abs(*dvia, dst)], vec![]),
-            Op::Read { h, .. } | Op::Write { h, .. } | Op::Seek { h, .. } | Op::Truncate { h } | Op::Flush { h } | Op::SetTimes { h, .. } | Op::CloseFile { h } | Op::Extents { h } => (vec![], hp(*h)),
+            Op::Read { h, .. } | Op::Write { h, .. } | Op::Seek { h, .. } | Op::Truncate { h } | Op::Flush { h } | Op::FlushRetry { h, .. } | Op::SetTimes { h, .. } | Op::CloseFile { h } | Op::Extents { h } => (vec![], hp(*h)),
             Op::Remount { .. } => (vec![], all_handles),
             _ => (vec![], vec![]),
         }
